@@ -88,6 +88,18 @@ def gen(ctx):
                                 else:
                                     items[pos] = bad_item(kind, r, nt, bo, tail)
                                 cases.append(mk_case(r, nt, bo, tail, nrows, start_empty, op, kind, pos))
+            # an EMPTY array whose FIRST chunk is small (numpy's stdio buffer hides a refused write) and is
+            # cut by the file system inside it: the description still says length 0
+            for k_of in (lambda tot: 1, lambda tot: tot - 1, lambda tot: tot // 2):
+                items = [nd_spec(rand_array(r, nt, bo, (r.randint(2, 3),) + tail))]
+                if r.random() < 0.5:
+                    items.append(nd_spec(rand_array(r, nt, bo, (1,) + tail)))
+                tot = items[0]['shape'][0] * rb
+                kk = max(0, min(tot - 1, k_of(tot)))
+                op2 = dict(op='iterappend', items=items, fsize=dict(chunk=0, k=kk))
+                cases.append(mk_case(r, nt, bo, tail, nrows, True, op2, 'w', 0))
+                if ctx.quick:
+                    break
     return cases
 
 
